@@ -118,6 +118,11 @@ def _check_iso9660_filename(fullname, interchange_level):
 
     (name, extension, version) = _split_iso9660_filename(fullname)
 
+    # The length of a directory record is stored in one byte, and the record
+    # has 33 bytes besides the identifier (plus a padding byte).
+    if len(fullname) > 221:
+        raise pycdlibexception.PyCdlibInvalidInput('ISO9660 filenames cannot exceed 221 bytes')
+
     # Ecma-119 says that filenames must end with a semicolon-number, but we have
     # found ISOs in the wild (Ubuntu 14.04 Desktop i386) that do not follow
     # this.  Thus we allow for names both with and without the semi+version.
@@ -192,6 +197,11 @@ def _check_iso9660_directory(fullname, interchange_level):
 
     if len(fullname) > maxlen:
         raise pycdlibexception.PyCdlibInvalidInput('ISO9660 directory names at interchange level %d cannot exceed %d characters' % (interchange_level, maxlen))
+
+    # The length of a directory record is stored in one byte, and the record
+    # has 33 bytes besides the identifier (plus a padding byte).
+    if len(fullname) > 221:
+        raise pycdlibexception.PyCdlibInvalidInput('ISO9660 directory names cannot exceed 221 bytes')
 
     # Ecma-119 section 7.6.1 says that directory names consist of one or more
     # d-characters or d1-characters.  While the definition of d-characters and
